@@ -85,6 +85,9 @@ type pdfcpuDoc struct {
 
 func (d *pdfcpuDoc) PageCount() int { return d.ctx.PageCount }
 
+// PDF20 reports whether pdfcpu treats the document as PDF 2.0 (header or catalog /Version).
+func (d *pdfcpuDoc) PDF20() bool { return d.ctx.XRefTable.Version() == model.V20 }
+
 func (d *pdfcpuDoc) PageContent(page int) ([]byte, error) {
 	pd, _, _, err := d.ctx.PageDict(page, false)
 	if err != nil {
@@ -339,47 +342,37 @@ func diffGraphs(a, b *Graph) (path, detail string) {
 		if depth > 400 {
 			return p + "/…", "too deep"
 		}
-		if repr(x, sa) == repr(y, sb) {
+		if (x.Kind == 'r') != (y.Kind == 'r') {
+			return p, "composite object vs scalar"
+		}
+		if x.Kind != 'r' { // scalars (after normalisation every composite is behind a reference)
+			if x.Kind != y.Kind || x.Val != y.Val {
+				return p, fmt.Sprintf("%c %s vs %c %s", x.Kind, clip(x.Val), y.Kind, clip(y.Val))
+			}
 			return "", ""
 		}
-		if x.Kind == 'r' && y.Kind == 'r' {
-			if seen[[2]int{x.Ref, y.Ref}] {
-				return "", ""
-			}
-			seen[[2]int{x.Ref, y.Ref}] = true
+		if sa[x.Ref] == sb[y.Ref] || seen[[2]int{x.Ref, y.Ref}] {
+			return "", ""
 		}
-		if x.Kind == 'r' {
-			return walk(a.Objs[x.Ref], y, p, depth+1)
-		}
-		if y.Kind == 'r' {
-			return walk(x, b.Objs[y.Ref], p, depth+1)
-		}
-		if x.Kind != y.Kind {
+		seen[[2]int{x.Ref, y.Ref}] = true
+		x, y = a.Objs[x.Ref], b.Objs[y.Ref]
+		switch {
+		case x.Kind != y.Kind:
 			return p, fmt.Sprintf("kind %c vs %c", x.Kind, y.Kind)
+		case strings.Join(x.Keys, ",") != strings.Join(y.Keys, ","):
+			return p, fmt.Sprintf("keys {%s} vs {%s}", strings.Join(x.Keys, ","), strings.Join(y.Keys, ","))
+		case len(x.Kids) != len(y.Kids):
+			return p, fmt.Sprintf("array length %d vs %d", len(x.Kids), len(y.Kids))
+		case x.Val != y.Val:
+			return p + "/<stream>", fmt.Sprintf("%s vs %s", x.Val, y.Val)
 		}
-		switch x.Kind {
-		case 'v', 's':
-			return p, fmt.Sprintf("%s vs %s", clip(x.Val), clip(y.Val))
-		case 'a':
-			if len(x.Kids) != len(y.Kids) {
-				return p, fmt.Sprintf("array length %d vs %d", len(x.Kids), len(y.Kids))
+		for i := range x.Kids {
+			step := "[]"
+			if i < len(x.Keys) {
+				step = "/" + x.Keys[i]
 			}
-			for i := range x.Kids {
-				if pp, d := walk(x.Kids[i], y.Kids[i], p+"[]", depth+1); pp != "" {
-					return pp, d
-				}
-			}
-		case 'd', 't':
-			if strings.Join(x.Keys, ",") != strings.Join(y.Keys, ",") {
-				return p, fmt.Sprintf("keys {%s} vs {%s}", strings.Join(x.Keys, ","), strings.Join(y.Keys, ","))
-			}
-			if x.Val != y.Val {
-				return p + "/<stream>", fmt.Sprintf("%s vs %s", x.Val, y.Val)
-			}
-			for i := range x.Kids {
-				if pp, d := walk(x.Kids[i], y.Kids[i], p+"/"+x.Keys[i], depth+1); pp != "" {
-					return pp, d
-				}
+			if pp, d := walk(x.Kids[i], y.Kids[i], p+step, depth+1); pp != "" {
+				return pp, d
 			}
 		}
 		return "", ""
@@ -411,17 +404,24 @@ func diffDocs(a, b Doc) (class, detail string) {
 		}
 	}
 	ia, ib := a.InfoStrings(), b.InfoStrings()
-	for k, v := range ia {
+	keys := []string{}
+	for k := range ia {
+		keys = append(keys, k)
+	}
+	for k := range ib {
+		if _, ok := ia[k]; !ok {
+			keys = append(keys, k)
+		}
+	}
+	sort.Strings(keys)
+	for _, k := range keys {
 		if skipInfo[k] {
 			continue
 		}
-		if w, ok := ib[k]; !ok || w != v {
-			return "info/" + k, fmt.Sprintf("Info /%s: %s vs %s", k, v, w)
-		}
-	}
-	for k := range ib {
-		if _, ok := ia[k]; !ok && !skipInfo[k] {
-			return "info/" + k, fmt.Sprintf("Info /%s only in second", k)
+		va, oka := ia[k]
+		vb, okb := ib[k]
+		if oka != okb || va != vb {
+			return "info/" + k, fmt.Sprintf("Info /%s: %q (present %v) vs %q (present %v)", k, va, oka, vb, okb)
 		}
 	}
 	if p, d := diffGraphs(a.Graph(), b.Graph()); p != "" {
